@@ -64,6 +64,27 @@ class Ctx:
         self.notes: List[str] = []
         self.extra: Dict[str, Any] = {}
 
+    # -- E2: calls to in-package functions rewritten to all-keyword form (positional == keyword spelling)
+    def normcalls(self, t):
+        if not isinstance(t, tuple) or not t:
+            return t
+        if not isinstance(t[0], str):
+            return tuple(self.normcalls(c) for c in t)
+        t = tuple(self.normcalls(c) if isinstance(c, tuple) else c for c in t)
+        if t[0] == "call" and t[1][0] == "global" and t[1][2] == "func" and ":" in t[1][1]:
+            modname, fname = t[1][1].split(":")
+            try:
+                fs = self.summ.of_func(modname, fname)
+            except Exception:  # noqa: BLE001
+                return t
+            if any(a[0] == "star" for a in t[2]) or any(k == "**" for k, _ in t[3]) or len(t[2]) > len(fs.params):
+                return t
+            kws = dict(t[3])
+            for p, a in zip(fs.params, t[2]):
+                kws[p] = a
+            return ("call", t[1], (), tuple(sorted(kws.items())))
+        return t
+
     # -- rule declaration
     def rule(self, rid: str, text: str, floor: int):
         self.rule_text[rid] = text
